@@ -31,6 +31,12 @@ func init() {
 		c.E.Count("validate-class:" + strings.SplitN(class, ":", 2)[0])
 		return c08ValidateOut{class, nn(list)}
 	})
+	// dispatch: the real Run with a recording client (the machinery of C05): which permutations are
+	// actually handed out under --run/--skip patterns, including the gRPC-peer ones whose names
+	// carry a marker
+	gen.RegisterOp("c08", "dispatch", func(c *gen.Ctx, raw json.RawMessage) any {
+		return c05Run(c, gen.Into[c05In](raw))
+	})
 	gen.RegisterOp("c08", "cli", func(c *gen.Ctx, raw json.RawMessage) any {
 		return c08RunCLI(c, gen.Into[c08CliIn](raw))
 	})
@@ -261,6 +267,29 @@ func runC08(c *gen.Ctx) error {
 	}
 	for i := 0; i < nVal; i++ {
 		c.Do("validate", c08ValidateIn{Failing: plist(2), Flaky: plist(2), Run: plist(2), Skip: plist(1), Names: allNames})
+	}
+	// (ii.b) patterns at work in the real dispatch loop
+	{
+		suites := []c05Suite{
+			{Name: "P", Tests: []c05Test{{Name: "a/t0", St: 1}, {Name: "b/t1", St: 3}}},
+			{Name: "Q", Tests: []c05Test{{Name: "a/t0", St: 2}}},
+		}
+		pats := [][2][]string{
+			{{"**/(grpc server impl)/**"}, {}},
+			{{}, {"**/(grpc server impl)/**"}},
+			{{"P/**"}, {"**/(grpc server impl)/b/*"}},
+			{{"**/TLS:false/a/t0"}, {}},
+			{{"P/HTTPVersion:2/Protocol:PROTOCOL_GRPC/Codec:CODEC_PROTO/Compression:COMPRESSION_IDENTITY/TLS:false/a/t0"}, {}},
+			{{"**/a/*", "Q/**"}, {"**/Protocol:PROTOCOL_CONNECT/**"}},
+		}
+		var ins []any
+		for i, p := range pats {
+			if !c.Thorough() && i >= 2 && i%2 == int(c.Seed%2) {
+				continue
+			}
+			ins = append(ins, c05In{Mode: "client", MaxServers: 2, Versions: []int{1, 2}, Protos: []int{1, 2, 3}, Behaviour: "ok", Run: p[0], Skip: p[1], Suites: suites})
+		}
+		c.DoParallel("dispatch", ins, 3)
 	}
 	// (iii) the real CLI, black box
 	if c.BinDir != "" {
